@@ -153,6 +153,22 @@ pub fn record(seed: u64, n: usize) -> Vec<J> {
     let mut r = Rng::new(seed);
     let mut out = strlaw_events(seed, (n / 8).max(100));
     let null = json!({"t":"null"});
+    // directed: sort / sort_by on lists of every length up to 40, with many ties and with few (merge passes that leave an
+    // unpaired run at the tail only exist for some lengths)
+    for len in 2..=40usize {
+        for wide in [false, true] {
+            let xs: Vec<J> = (0..len).map(|_| vgen::fin(if wide { r.range(-30, 30) } else { r.range(-2, 2) })).collect();
+            let list = json!({"t":"list","xs": xs});
+            for (f, k) in [("sort", ""), ("sort_by", "id"), ("sort_by", "neg")] {
+                let c = json!({"f":f,"v":list,"w":(null.clone()),"i":0,"j":0,"k":k});
+                let s = Session::new();
+                let src = call_src(&c);
+                let o = s.eval(&src);
+                out.push(json!({"ev":"call","c":c,"res":proj(&o, &s),"src":src}));
+            }
+        }
+        crate::ev::clear_stats();
+    }
     for _ in 0..n {
         let cfg = GenCfg { max_depth: 2, max_len: 3, rank: 5, alpha: vec![2, 3, 5, 12, 13, 16, 17, 18, 19], specials: false };
         let big = r.chance(1, 6);
